@@ -15,6 +15,9 @@ THRESHOLDS = [0.5, 1.0, 2.0, 4.0, 5.0, 8.0]
 class Record:
     def __init__(self, dt, t0, rain, level, removed, pre, post, et=None, tz="UTC", phase=0):
         self.phase = phase        # the level logger's clock runs `phase` seconds after the rain gauge's
+        self.fine = 1             # the level logger takes `fine` samples per rainfall step (values interpolated)
+        self.fine_gaps = set()    # steps i whose intermediate samples are missing: an outage strictly between two
+                                  #   grid instants (both instants keep their level; they are separated by a gap)
         self.dt = dt
         self.t0 = t0
         self.rain = rain          # intensities for steps -pre .. n-1+post  (list of floats)
@@ -39,12 +42,30 @@ class Record:
         else:
             et = [(t0 + (i - self.pre) * dt, self.et[i % len(self.et)]) for i in range(nr + 2)]
         level = [(t0 + i * dt + self.phase, v) for i, v in enumerate(self.level) if i not in self.removed]
+        if self.fine > 1:
+            k = self.fine
+            extra = []
+            for i in range(len(self.level) - 1):
+                if i in self.removed or i + 1 in self.removed or i in self.fine_gaps:
+                    continue
+                a, b = self.level[i], self.level[i + 1]
+                extra += [(t0 + i * dt + self.phase + q * (dt // k), a + (b - a) * q / k) for q in range(1, k)]
+            level = sorted(level + extra)
         return rain, et, level
+
+    def make_fine(self, rng):
+        """a fast pressure logger next to a slow rain gauge, with brief outages between two rain readings"""
+        self.fine = rng.choice([3, 4, 5])
+        ok = [i for i in range(self.n - 1) if i not in self.removed and i + 1 not in self.removed]
+        if len(ok) >= 3:
+            self.fine_gaps = set(rng.sample(ok, rng.randint(1, min(3, len(ok) - 2))))
+        return self
 
     def describe(self):
         return {
             "dt": self.dt, "t0": self.t0, "n": self.n, "pre": self.pre, "post": self.post,
             "rain": self.rain, "level": self.level, "removed": sorted(self.removed), "phase": self.phase,
+            "fine": self.fine, "fine_gaps": sorted(self.fine_gaps),
         }
 
 
